@@ -229,13 +229,24 @@ class StmtMixin:
         for p in body_paths:
             if p.exit is not None and p.exit[0] in ("return", "raise"):
                 yield p.exit, st.fork()
+        # a name the loop binds for the first time is bound afterwards only if the body ran: a for loop may run zero times (its
+        # iterable may be empty), so reading such a name after the loop is an UnboundLocalError on that history
+        may_skip = isinstance(n, ast.For)
+        def unbound(nm):
+            v0 = st.env.get(nm)
+            return nm not in st.env or (isinstance(v0, tuple) and v0[:1] == ("mu",))
+        unbound_before = {nm for nm in names if unbound(nm)}
         for nm in names:
-            st.env[nm] = ("unk", "%s@loop%d" % (nm, loop_id))
+            v = ("unk", "%s@loop%d" % (nm, loop_id))
+            st.env[nm] = ("mu", v) if (may_skip and nm in unbound_before) else v
+        target_names = []
         if isinstance(n, ast.For):
             # the loop variable stays bound to the last element after the loop
             for x in ast.walk(n.target):
                 if isinstance(x, ast.Name) and x.id not in names:
-                    st.env[x.id] = ("unk", "%s@loop%d" % (x.id, loop_id))
+                    v = ("unk", "%s@loop%d" % (x.id, loop_id))
+                    target_names.append(x.id)
+                    st.env[x.id] = ("mu", v) if unbound(x.id) else v
         for k in touched_heap:
             st.heap.pop(k, None)
             for fk in [fk for fk in st.facts if mentions(fk, ("attr",) + k)]:
@@ -250,7 +261,12 @@ class StmtMixin:
         if n.orelse:
             # the else clause runs when the loop ends without break; a break skips it
             if any(p.exit is not None and p.exit[0] == "break" for p in body_paths):
-                yield None, st.fork()
+                sb = st.fork()
+                for nm in list(target_names) + list(names):
+                    v = sb.env.get(nm)
+                    if isinstance(v, tuple) and v[:1] == ("mu",):
+                        sb.env[nm] = v[1]      # left by break: the body was running
+                yield None, sb
             yield from self.block(n.orelse, st, fx)
         else:
             yield None, st
